@@ -13,7 +13,7 @@ import json
 import os
 
 from pyvc.api import contract, lemma, custom, Int, Bool, Str, Opt, Rec, SeqOf, TupleOf, implies, call, mk
-from contracts._common import ViolationT, PathT, path_str
+from contracts._common import ViolationT, PathT, path_str, py_unparse
 from contracts._nodes import TSNode, PyNode
 from contracts import c12_core  # noqa: F401  (contracts of the core builders these sites call)
 
@@ -649,3 +649,195 @@ class LBCreateSyntaxError:
 
     def ensures_is_a_syntax_error_notice(error, result):
         return result.rule_id == "lbyl.syntax-error" and result.message == f"Syntax error: {error.msg}"
+
+
+# ================================================================== LBYL: where the location is produced (node -> pattern -> violation)
+# Each detector's _create_pattern takes the `if` statement it matched and records that statement's own position;
+# each converter in python_analyzer.py hands exactly that position to the builder. The quoted names are
+# ast.unparse of sub-expressions of the same `if` (its test), so they occur on the line(s) of the reported statement.
+PD = L + "lbyl/pattern_detectors/"
+PA = L + "lbyl/python_analyzer.py::"
+DictKeyPatternT = Rec("DictKeyPattern", cls=PD + "dict_key_detector.py::DictKeyPattern", line_number=Int, column=Int, dict_name=Str, key_expression=Str)
+
+
+@contract(PD + "dict_key_detector.py::DictKeyDetector._create_pattern", props=["C12"],
+          types=dict(self=Rec("DictKeyDetector", cls=PD + "dict_key_detector.py::DictKeyDetector"), node=PyNode, dict_expr=PyNode, key_expr=PyNode), returns=DictKeyPatternT)
+class DictKeyCreatePattern:
+    def requires(node, dict_expr, key_expr):
+        return isinstance(node, ast.If) and dict_expr is not None and key_expr is not None
+
+    def ensures_location_is_the_if_statement(node, result):
+        return result.line_number == node.lineno and result.column == node.col_offset
+
+    def ensures_quoted_names(node, dict_expr, key_expr, result):
+        return result.dict_name == py_unparse(dict_expr) and result.key_expression == py_unparse(key_expr)
+
+
+@contract(PA + "_build_dict_key", props=["C12"], types=dict(pattern=DictKeyPatternT, file_path=Str), returns=ViolationT)
+class DictKeyConvert:
+    def ensures_location(pattern, file_path, result):
+        return at(result, file_path, pattern.line_number, pattern.column)
+
+    def ensures_rule(result):
+        return result.rule_id == "lbyl.dict-key-check"
+HasattrPatternT = Rec("HasattrPattern", cls=PD + "hasattr_detector.py::HasattrPattern", line_number=Int, column=Int, object_name=Str, attribute_name=Str)
+
+
+@contract(PD + "hasattr_detector.py::HasattrDetector._create_pattern", props=["C12"],
+          types=dict(self=Rec("HasattrDetector", cls=PD + "hasattr_detector.py::HasattrDetector"), node=PyNode, obj_expr=PyNode, attr_name=Str), returns=HasattrPatternT)
+class HasattrCreatePattern:
+    def requires(node, obj_expr, attr_name):
+        return isinstance(node, ast.If) and obj_expr is not None
+
+    def ensures_location_is_the_if_statement(node, result):
+        return result.line_number == node.lineno and result.column == node.col_offset
+
+    def ensures_quoted_names(node, obj_expr, attr_name, result):
+        return result.object_name == py_unparse(obj_expr) and result.attribute_name == attr_name
+
+
+@contract(PA + "_build_hasattr", props=["C12"], types=dict(pattern=HasattrPatternT, file_path=Str), returns=ViolationT)
+class HasattrConvert:
+    def ensures_location(pattern, file_path, result):
+        return at(result, file_path, pattern.line_number, pattern.column)
+
+    def ensures_rule(result):
+        return result.rule_id == "lbyl.hasattr-check"
+IsinstancePatternT = Rec("IsinstancePattern", cls=PD + "isinstance_detector.py::IsinstancePattern", line_number=Int, column=Int, object_name=Str, type_name=Str)
+
+
+@contract(PD + "isinstance_detector.py::IsinstanceDetector._create_pattern", props=["C12"],
+          types=dict(self=Rec("IsinstanceDetector", cls=PD + "isinstance_detector.py::IsinstanceDetector"), node=PyNode, obj_expr=PyNode, type_name=Str), returns=IsinstancePatternT)
+class IsinstanceCreatePattern:
+    def requires(node, obj_expr, type_name):
+        return isinstance(node, ast.If) and obj_expr is not None
+
+    def ensures_location_is_the_if_statement(node, result):
+        return result.line_number == node.lineno and result.column == node.col_offset
+
+    def ensures_quoted_names(node, obj_expr, type_name, result):
+        return result.object_name == py_unparse(obj_expr) and result.type_name == type_name
+
+
+@contract(PA + "_build_isinstance", props=["C12"], types=dict(pattern=IsinstancePatternT, file_path=Str), returns=ViolationT)
+class IsinstanceConvert:
+    def ensures_location(pattern, file_path, result):
+        return at(result, file_path, pattern.line_number, pattern.column)
+
+    def ensures_rule(result):
+        return result.rule_id == "lbyl.isinstance-check"
+FileExistsPatternT = Rec("FileExistsPattern", cls=PD + "file_exists_detector.py::FileExistsPattern", line_number=Int, column=Int, file_path_expression=Str, check_type=Str)
+
+
+@contract(PD + "file_exists_detector.py::FileExistsDetector._create_pattern", props=["C12"],
+          types=dict(self=Rec("FileExistsDetector", cls=PD + "file_exists_detector.py::FileExistsDetector"), node=PyNode, path_expr=PyNode, check_type=Str), returns=FileExistsPatternT)
+class FileExistsCreatePattern:
+    def requires(node, path_expr, check_type):
+        return isinstance(node, ast.If) and path_expr is not None
+
+    def ensures_location_is_the_if_statement(node, result):
+        return result.line_number == node.lineno and result.column == node.col_offset
+
+    def ensures_quoted_names(node, path_expr, check_type, result):
+        return result.file_path_expression == py_unparse(path_expr) and result.check_type == check_type
+
+
+@contract(PA + "_build_file_exists", props=["C12"], types=dict(pattern=FileExistsPatternT, file_path=Str), returns=ViolationT)
+class FileExistsConvert:
+    def ensures_location(pattern, file_path, result):
+        return at(result, file_path, pattern.line_number, pattern.column)
+
+    def ensures_rule(result):
+        return result.rule_id == "lbyl.file-exists-check"
+LenCheckPatternT = Rec("LenCheckPattern", cls=PD + "len_check_detector.py::LenCheckPattern", line_number=Int, column=Int, collection_name=Str, index_expression=Str)
+
+
+@contract(PD + "len_check_detector.py::LenCheckDetector._create_pattern", props=["C12"],
+          types=dict(self=Rec("LenCheckDetector", cls=PD + "len_check_detector.py::LenCheckDetector"), node=PyNode, collection_expr=PyNode, index_expr=PyNode), returns=LenCheckPatternT)
+class LenCheckCreatePattern:
+    def requires(node, collection_expr, index_expr):
+        return isinstance(node, ast.If) and collection_expr is not None and index_expr is not None
+
+    def ensures_location_is_the_if_statement(node, result):
+        return result.line_number == node.lineno and result.column == node.col_offset
+
+    def ensures_quoted_names(node, collection_expr, index_expr, result):
+        return result.collection_name == py_unparse(collection_expr) and result.index_expression == py_unparse(index_expr)
+
+
+@contract(PA + "_build_len_check", props=["C12"], types=dict(pattern=LenCheckPatternT, file_path=Str), returns=ViolationT)
+class LenCheckConvert:
+    def ensures_location(pattern, file_path, result):
+        return at(result, file_path, pattern.line_number, pattern.column)
+
+    def ensures_rule(result):
+        return result.rule_id == "lbyl.len-check"
+NoneCheckPatternT = Rec("NoneCheckPattern", cls=PD + "none_check_detector.py::NoneCheckPattern", line_number=Int, column=Int, variable_name=Str)
+
+
+@contract(PD + "none_check_detector.py::NoneCheckDetector._create_pattern", props=["C12"],
+          types=dict(self=Rec("NoneCheckDetector", cls=PD + "none_check_detector.py::NoneCheckDetector"), node=PyNode, var_expr=PyNode), returns=NoneCheckPatternT)
+class NoneCheckCreatePattern:
+    def requires(node, var_expr):
+        return isinstance(node, ast.If) and var_expr is not None
+
+    def ensures_location_is_the_if_statement(node, result):
+        return result.line_number == node.lineno and result.column == node.col_offset
+
+    def ensures_quoted_names(node, var_expr, result):
+        return result.variable_name == py_unparse(var_expr)
+
+
+@contract(PA + "_build_none_check", props=["C12"], types=dict(pattern=NoneCheckPatternT, file_path=Str), returns=ViolationT)
+class NoneCheckConvert:
+    def ensures_location(pattern, file_path, result):
+        return at(result, file_path, pattern.line_number, pattern.column)
+
+    def ensures_rule(result):
+        return result.rule_id == "lbyl.none-check"
+StringValidatorPatternT = Rec("StringValidatorPattern", cls=PD + "string_validator_detector.py::StringValidatorPattern", line_number=Int, column=Int, string_name=Str, validator_method=Str, conversion_func=Str)
+
+
+@contract(PD + "string_validator_detector.py::StringValidatorDetector._create_pattern", props=["C12"],
+          types=dict(self=Rec("StringValidatorDetector", cls=PD + "string_validator_detector.py::StringValidatorDetector"), node=PyNode, string_expr=PyNode, validator=Str, conversion=Str), returns=StringValidatorPatternT)
+class StringValidatorCreatePattern:
+    def requires(node, string_expr, validator, conversion):
+        return isinstance(node, ast.If) and string_expr is not None
+
+    def ensures_location_is_the_if_statement(node, result):
+        return result.line_number == node.lineno and result.column == node.col_offset
+
+    def ensures_quoted_names(node, string_expr, validator, conversion, result):
+        return result.string_name == py_unparse(string_expr) and result.validator_method == validator and result.conversion_func == conversion
+
+
+@contract(PA + "_build_string_validator", props=["C12"], types=dict(pattern=StringValidatorPatternT, file_path=Str), returns=ViolationT)
+class StringValidatorConvert:
+    def ensures_location(pattern, file_path, result):
+        return at(result, file_path, pattern.line_number, pattern.column)
+
+    def ensures_rule(result):
+        return result.rule_id == "lbyl.string-validator"
+DivisionCheckPatternT = Rec("DivisionCheckPattern", cls=PD + "division_check_detector.py::DivisionCheckPattern", line_number=Int, column=Int, divisor_name=Str, operation=Str)
+
+
+@contract(PD + "division_check_detector.py::DivisionCheckDetector._create_pattern", props=["C12"],
+          types=dict(self=Rec("DivisionCheckDetector", cls=PD + "division_check_detector.py::DivisionCheckDetector"), node=PyNode, var_expr=PyNode, operation=Str), returns=DivisionCheckPatternT)
+class DivisionCheckCreatePattern:
+    def requires(node, var_expr, operation):
+        return isinstance(node, ast.If) and var_expr is not None
+
+    def ensures_location_is_the_if_statement(node, result):
+        return result.line_number == node.lineno and result.column == node.col_offset
+
+    def ensures_quoted_names(node, var_expr, operation, result):
+        return result.divisor_name == py_unparse(var_expr) and result.operation == operation
+
+
+@contract(PA + "_build_division_check", props=["C12"], types=dict(pattern=DivisionCheckPatternT, file_path=Str), returns=ViolationT)
+class DivisionCheckConvert:
+    def ensures_location(pattern, file_path, result):
+        return at(result, file_path, pattern.line_number, pattern.column)
+
+    def ensures_rule(result):
+        return result.rule_id == "lbyl.division-check"
